@@ -223,7 +223,9 @@ HEADER = ("(* GENERATED on every run by vlib/translate.py from the current sourc
 #                                  statement-level calls / stores whose value is unused, matched structurally; the
 #                                  constructor (applied to the translated holes) is appended to the effect list, so
 #                                  the definition returns the effects IN PROGRAM ORDER; a pattern may be any statement
-#                                  (a whole `try: x.remove(y) / except ValueError: pass`); a pattern that is a
+#                                  (a whole `try: x.remove(y) / except ValueError: pass`; a block consisting of the
+#                                  single name `_body` matches any statements: a loop whose body is tied on its own);
+#                                  a pattern that is a
 #                                  `return <call>` or a `raise ...` ends the path (the function is declared ret="unit")
 #   state fields of type "mapQ" / "mapZ" are dicts with integer keys modelled as total functions Z -> Q / Z -> Z:
 #            `self.d[k]` reads (d k), `self.d[k] = v` / `+=` writes gen_upd d k v; a KeyError of a plain dict is NOT
@@ -251,6 +253,7 @@ HEADER = ("(* GENERATED on every run by vlib/translate.py from the current sourc
 #            the while itself: one evaluation of its test, then the body (loop_again) or what follows the loop
 #            (`for i, x in enumerate(C)` with C observed through len: the test is i < len(C), i += 1 after the body, i starts at 0)
 #            (`for x in C` likewise, the position being the hidden local named by loop_index)
+#            select="inner_for": the method's only for loop, wherever it is nested, alone
 #   loop_again  constructor: a top-level `while True:` is translated as ONE iteration: `break` goes on with what follows
 #            the loop; reaching the end of the body appends the constructor and ends the path (the next iteration is
 #            the same body again, on the values the effects left behind)
@@ -312,6 +315,9 @@ def _match(pat, node, binds):
             continue
         nv = getattr(node, f, None)
         if isinstance(pv, list):
+            if (len(pv) == 1 and isinstance(pv[0], ast.Expr) and isinstance(pv[0].value, ast.Name)
+                    and pv[0].value.id == "_body" and isinstance(nv, list)):
+                continue                                 # `_body` alone as a block: any statements (tied elsewhere)
             if not isinstance(nv, list) or len(pv) != len(nv):
                 return False
             for a, b in zip(pv, nv):
@@ -1160,6 +1166,12 @@ def translate_fn(spec, state, record, prefix, effect_type):
         if len(pos) != 1:
             raise Unsupported(f"{spec.cls}.{spec.method}: not exactly one top-level loop")
         stmts = stmts[:pos[0]] if spec.select == "before_loop" else stmts[pos[0]:]
+    elif spec.select == "inner_for":
+        # the method's only `for` loop, wherever it is nested: ONE iteration of it (nothing before, nothing after)
+        loops = [n for n in ast.walk(f) if isinstance(n, ast.For)]
+        if len(loops) != 1:
+            raise Unsupported(f"{spec.cls}.{spec.method}: not exactly one for loop")
+        stmts = [loops[0]]
     elif spec.select == "sample_loop_body":
         # `while True: yield <wait>; for x in <iterable>: <statements>`: the statements for ONE x (x is a listed observation;
         # the loop itself -- which x, in which order -- is not translated)
